@@ -344,6 +344,12 @@ recipe('ComponentProjection/weighted', [PSP + 'ComponentProjection'], linear=Tru
     lambda ctx: odl.ComponentProjection(odl.ProductSpace(R(2), W3()), 1))
 recipe('ComponentProjectionAdjoint/int', [PSP + 'ComponentProjectionAdjoint'], linear=True, deriv=True)(
     lambda ctx: odl.ComponentProjectionAdjoint(odl.ProductSpace(R(2), R(3)), 0))
+for _nm, _ix in (('slice', slice(0, 2)), ('stepped-slice', slice(None, None, 2)), ('negative-step', slice(None, None, -2)),
+                 ('negative-int', -1), ('tail-slice', slice(1, None))):
+    recipe('ComponentProjection/' + _nm, [PSP + 'ComponentProjection'], linear=True, deriv=True)(
+        lambda ctx, _ix=_ix: odl.ComponentProjection(odl.ProductSpace(R(2), 3), _ix))
+    recipe('ComponentProjectionAdjoint/' + _nm, [PSP + 'ComponentProjectionAdjoint'], linear=True, deriv=True)(
+        lambda ctx, _ix=_ix: odl.ComponentProjectionAdjoint(odl.ProductSpace(R(2), 3), _ix))
 recipe('ComponentProjectionAdjoint/list', [PSP + 'ComponentProjectionAdjoint'], linear=True, deriv=True)(
     lambda ctx: odl.ComponentProjectionAdjoint(odl.ProductSpace(R(2), R(3), D3()), [2, 0]))
 recipe('Broadcast/linear', [PSP + 'BroadcastOperator'], linear=True, deriv=True)(
